@@ -652,6 +652,8 @@ PROPS = {
         "assumptions": ["the snapshot side (SnapshotIterator over KMergeIterator over memtable and table cursors) is modelled as a "
                         "cursor over the live keys of the snapshot; its own refinement proof is not done — the real stack runs "
                         "underneath the correspondence"],
-        "trusted_base": ["modelled, not verified: TransactionRangeIterator::{position_to_min,position_to_max,seek*,next,prev}"],
+        "trusted_base": ["modelled, not verified: TransactionRangeIterator::{position_to_min,position_to_max,seek*,next,prev} "
+                         "(all five calls and both positioning loops are proved against the specification for every call sequence: "
+                         "C09_cursor_trace)"],
     },
 }
